@@ -188,8 +188,55 @@ def jet_header(partons, sep, label, n):
 
 
 # =================================================================================================== generators
+def gen_literal(rng, extreme=True):
+    """a real-number literal composed from the forms Python's float() accepts over the alphabet [0-9+-.eE]:
+    sign ('', '-', '+') x mantissa (d | d. | .d | d.d, with leading / trailing zeros) x exponent (none | e/E, sign '', '+', '-',
+    digits with leading zeros), over magnitudes from denormal to overflow"""
+    sign = rng.choice(["", "", "", "-", "-", "+"])
+    ip = rng.choice(["0", "%d" % rng.randint(1, 9), "%d" % rng.randint(10, 9999), "00%d" % rng.randint(0, 99), "%d0" % rng.randint(1, 99)])
+    fp = rng.choice(["0", "%d" % rng.randint(1, 9), "%03d" % rng.randint(0, 999), "%d00" % rng.randint(1, 99),
+                     "".join(rng.choice("0123456789") for _ in range(rng.randint(7, 20)))])
+    mant = rng.choice([ip, ip + ".", "." + fp, ip + "." + fp, ip + "." + fp, ip + "." + fp])
+    r = rng.random()
+    if r < 0.45:
+        ex = ""
+    else:
+        big = extreme and rng.random() < 0.12
+        n = rng.choice([0, 1, 1, 2, 3, 5, 7, 10, 12]) if not big else rng.choice([22, 100, 300, 307, 320, 330, 400])
+        ex = rng.choice(["e", "e", "E"]) + rng.choice(["", "+", "-", "-"]) + rng.choice(["%d", "%02d", "%03d"]) % n
+    return sign + mant + ex
+
+
+def vary_literal(rng, v):
+    """the float `v` written in another literal form (same value up to the digits printed)"""
+    r = rng.random()
+    if r < 0.35:
+        t = "%r" % v
+    elif r < 0.5:
+        t = "%g" % v
+    elif r < 0.62:
+        t = "%.*e" % (rng.randint(6, 12), v)
+    elif r < 0.7:
+        t = "%.*E" % (rng.randint(6, 12), v)
+    elif r < 0.8:
+        t = "%.*f" % (rng.randint(6, 10), v)
+    elif r < 0.88 and v == int(v) and abs(v) < 1e6:
+        t = rng.choice(["%d", "%d.", "%d.000", "%de0", "%d0e-1", "%d.0E+00"]) % int(v)
+    elif r < 0.94 and v == int(v) and abs(v) < 1e6:
+        t = "0.%de%d" % (abs(int(v)), len(str(abs(int(v))))) if v != 0 else "0e5"
+        t = ("-" if v < 0 else "") + t
+    else:
+        t = "%r" % v
+    if not t.startswith("-") and rng.random() < 0.12:
+        t = "+" + t
+    return t
+
+
 def gen_real_tok(rng):
-    s = rng.choice(["plain", "plain", "exp", "neg", "integral", "small", "plus", "dot", "bigexp", "capE", "long", "zero"])
+    s = rng.choice(["plain", "plain", "exp", "neg", "integral", "small", "plus", "dot", "bigexp", "capE", "long", "zero",
+                    "compose", "compose", "compose", "compose"])
+    if s == "compose":
+        return gen_literal(rng)
     if s == "plain":
         return "%d.%0*d" % (rng.randint(0, 30), rng.randint(1, 6), rng.randint(0, 999))
     if s == "exp":
@@ -222,17 +269,40 @@ def gen_int_tok(rng, col):
         return str(rng.choice([0, 11, 27, -1, 62, -11]))
     if col == "ID":
         return str(rng.randint(0, 99999))
-    return rng.choice([str(rng.choice([0, 1, 2, 5, -3, 17, 45, 1000000])), "+3", "-0", "007"])
+    return rng.choice([str(rng.choice([0, 1, 2, 5, -3, 17, 45, 1000000])), "+3", "-0", "007", "+0", "-007", "+00%d" % rng.randint(0, 99),
+                       "%d" % rng.randint(-10 ** 9, 10 ** 9), "0000"])
 
 
 def gen_tok(rng, col):
     return gen_int_tok(rng, col) if col in INT_COLS else gen_real_tok(rng)
 
 
+def gen_nev(rng):
+    """number of events: mostly small, regularly two-digit labels (9-12, 33) and three-digit labels (100+)"""
+    r = rng.random()
+    if r < 0.82:
+        return rng.randint(1, 6)
+    if r < 0.91:
+        return rng.randint(9, 12)
+    if r < 0.95:
+        return 33
+    if r < 0.98:
+        return rng.randint(100, 115)
+    return rng.randint(7, 40)
+
+
 def gen_mults(rng, nev, maxpart=5):
+    if nev > 40:
+        maxpart = 2
+    elif nev > 12:
+        maxpart = 3
     ms = [0 if rng.random() < 0.2 else rng.randint(1, maxpart) for _ in range(nev)]
     if rng.random() < 0.25:
         ms[rng.randrange(nev)] = rng.randint(10, 13)  # two-digit count
+    if rng.random() < (0.03 if nev <= 12 else 0.0):
+        ms[rng.randrange(nev)] = rng.randint(100, 125)  # three-digit count
+    if rng.random() < 0.1:
+        ms[rng.randrange(nev)] = 1
     if rng.random() < 0.15:
         ms[0] = 0
     if rng.random() < 0.15:
@@ -241,7 +311,9 @@ def gen_mults(rng, nev, maxpart=5):
 
 
 def smash_footer(rng, label, b=None):
-    b = b if b is not None else rng.choice(["%.3f" % rng.uniform(0, 15), "0.000", "12.5", "1e-3", "-1.000", "7"])
+    if b is None:
+        b = rng.choice(["%.3f" % rng.uniform(0, 15), "0.000", "12.5", "1e-3", "-1.000", "7"]) if rng.random() < 0.4 else \
+            rng.choice([gen_literal(rng), vary_literal(rng, round(rng.uniform(0, 20), rng.randint(0, 4)))])
     pad = rng.choice(["   ", " ", "  "])
     tail = rng.choice(["yes", "no"])
     return f"# event {label} end 0 impact{pad}{b} scattering_projectile_target {tail}", b
@@ -267,7 +339,7 @@ def gen_ospec(rng, fmt=None, cols=None, nev=None):
             cols = rng.sample(EXT_COLS, k)
         h2 = None
         ncol = lambda: len(cols)
-    nev = nev or rng.randint(1, 6)
+    nev = nev or gen_nev(rng)
     events = []
     for lab, m in enumerate(gen_mults(rng, nev)):
         foot, b = smash_footer(rng, lab)
@@ -293,13 +365,13 @@ def gen_momentum(rng):
         e = max(0.0, round(p - rng.choice([0.25, 1.0]), 4))  # space-like
     else:
         e = -round(p + 0.5, 3)  # negative energy, |E| > p
-    return ["%r" % e if rng.random() < 0.7 else "%g" % e, "%r" % px, "%r" % py, "%r" % pz]
+    return [vary_literal(rng, v) for v in (e, px, py, pz)]
 
 
 def gen_jspec(rng, partons=None, nev=None):
     partons = rng.random() < 0.5 if partons is None else partons
     sep = rng.choice(["\t", "\t", " "])
-    nev = nev or rng.randint(1, 6)
+    nev = nev or gen_nev(rng)
     events = []
     for i, m in enumerate(gen_mults(rng, nev)):
         parts = []
@@ -322,11 +394,15 @@ def gen_sigma(rng):
 
     def one():
         r = rng.random()
-        if r < 0.4:
+        if r < 0.25:
             return "%.*f" % (rng.randint(1, 9), rng.uniform(0, 50))
-        if r < 0.8:
+        if r < 0.5:
             return "%.*e" % (rng.randint(1, 6), rng.uniform(1e-9, 1e3))
-        return "%d" % rng.randint(0, 999)
+        if r < 0.6:
+            return "%d" % rng.randint(0, 999)
+        if r < 0.8:
+            return vary_literal(rng, round(rng.uniform(0, 100), rng.randint(0, 5)))
+        return gen_literal(rng)
     return (one(), one())
 
 
@@ -693,39 +769,46 @@ def check_file(kind, text, P=None, slot=None):
 
 
 def shrink_spec(spec, key):
-    """delta-debugging on events / particles while the same key keeps failing"""
+    """delta-debugging on events / particles while the same key keeps failing (blocks first, then single items)"""
     def fails(s):
         try:
             return any(k == key for k, _ in check_file(s.kind, s.text()))
         except NotWellFormed:
             return False
     cur = spec
+    # events: remove blocks of decreasing size
+    size = max(1, len(cur.events) // 2)
+    while size >= 1:
+        i = len(cur.events) - size
+        removed = False
+        while i >= 0 and len(cur.events) > size:
+            cand = clone(cur, [dict(e) for k, e in enumerate(cur.events) if not (i <= k < i + size)])
+            if cand.events and fails(cand):
+                cur, removed = cand, True
+                i = min(i, len(cur.events)) - size
+            else:
+                i -= size
+        if not removed or size == 1:
+            size //= 2
+    # particles of every remaining event: halves, then single lines
     changed = True
     while changed:
         changed = False
-        for i in range(len(cur.events) - 1, -1, -1):
-            if len(cur.events) <= 1:
-                break
-            evs = [dict(e) for k, e in enumerate(cur.events) if k != i]
-            for lab, e in enumerate(evs):  # renumber
-                relabel(cur, e, lab)
-            cand = clone(cur, evs)
-            if fails(cand):
-                cur, changed = cand, True
-                break
-        if changed:
-            continue
         for i, e in enumerate(cur.events):
-            for j in range(len(e["parts"])):
-                evs = [dict(x) for x in cur.events]
-                evs[i] = dict(e, parts=e["parts"][:j] + e["parts"][j + 1:])
-                relabel(cur, evs[i], e["label"])
-                cand = clone(cur, evs)
-                if fails(cand):
-                    cur, changed = cand, True
-                    break
-            if changed:
-                break
+            n = len(e["parts"])
+            size = max(1, n // 2)
+            while size >= 1 and n:
+                j = 0
+                while j < len(cur.events[i]["parts"]):
+                    parts = cur.events[i]["parts"]
+                    evs = [dict(x) for x in cur.events]
+                    evs[i] = dict(evs[i], parts=parts[:j] + parts[j + size:])
+                    cand = clone(cur, evs)
+                    if fails(cand):
+                        cur, changed = cand, True
+                    else:
+                        j += size
+                size //= 2
     return cur
 
 
@@ -1024,6 +1107,16 @@ def sniff_format(toks, slot=None):
             os.unlink(path)
 
 
+def big_files(ctx, rng):
+    """structural sizes on purpose: two- and three-digit event labels in every run, four-digit ones in the thorough tier"""
+    out = [gen_jspec(rng, nev=rng.randint(10, 12)), gen_ospec(rng, nev=rng.randint(10, 12)), gen_jspec(rng, nev=33), gen_ospec(rng, nev=33),
+           gen_jspec(rng, nev=rng.randint(100, 130)), gen_ospec(rng, nev=rng.randint(100, 130))]
+    if ctx.thorough:
+        out += [gen_jspec(rng, nev=rng.randint(1000, 1100)), gen_ospec(rng, fmt="oscar2013", nev=rng.randint(1000, 1100)),
+                gen_ospec(rng, fmt="ascii", nev=rng.randint(1000, 1100))]
+    return out
+
+
 def ascii_headers(ctx, rng):
     """single-column and ordered two-column ASCII headers: all of them in the thorough tier"""
     singles = [[c] for c in EXT_COLS]
@@ -1035,7 +1128,10 @@ def ascii_headers(ctx, rng):
 
 def correspond(ctx):
     rng = ctx.rng
-    ctx.rule = ("random well-formed files (1-6 events, multiplicities 0-5 with empty events at first/middle/last position, one two-digit "
+    ctx.rule = ("random well-formed files (1-6 events mostly, 9-12 / 33 / 100+ events regularly, 1000+ in the thorough tier; every number in "
+                "the whole variety of float()/int() literal forms of the grammar: sign, d | d. | .d | d.d, leading/trailing zeros, e/E "
+                "exponents with and without sign and leading zeros, denormal to overflow, negative zero - particle columns, impact "
+                "parameters, sigmaGen pair; multiplicities 0-5 mostly, 10+ and 100+ particle events with empty events at first/middle/last position, one two-digit "
                 "count, Oscar2013 / Extended 20+22 columns / ASCII random column subsets and orders incl. 13 and 21 columns and all "
                 "(thorough) single- and two-column headers / JETSCAPE hadron+parton, tab or blank separated headers, with or without "
                 "final newline; tokens plain/exponent/negative/integral/extreme; PDG codes known, unknown, quark, gluon, photon, "
@@ -1057,6 +1153,9 @@ def correspond(ctx):
         if spec.kind == "oscar" and spec.fmt == "ascii":
             ctx.count(f"ascii/ncols={len(spec.cols)}")
         jobs.append(corr_spec(ctx, spec, f"{tag}#{i}", slot=PATHS.pick(rng, spec.kind)))
+    for spec in big_files(ctx, rng):
+        ctx.count(f"file/big/{spec.kind}/events={len(spec.events)}")
+        jobs.append(corr_spec(ctx, spec, f"big#{len(spec.events)}", slot=PATHS.pick(rng, spec.kind)))
     for cols in ascii_headers(ctx, rng):
         spec = gen_ospec(rng, fmt="ascii", cols=cols, nev=rng.randint(1, 3))
         ctx.count(f"ascii/ncols={len(cols)}")
@@ -1337,6 +1436,7 @@ def search(ctx, budget_s):
         targeted.append((JSpec(True, e, "#\tsigmaGen\t0.1\tsigmaErr\t0.01", ("0.1", "0.01")), None))
     for seq in path_sequences(rng):
         targeted += seq
+    targeted += [(sp, PATHS.pick(rng, sp.kind)) for sp in big_files(ctx, rng)]
     limit = 4000 if ctx.thorough else 500
     while n < limit and (time.time() - t0 < budget_s or n < len(targeted) + 40):
         if targeted:
